@@ -212,6 +212,48 @@ Proof.
   destruct e as [k o b|n args]; [reflexivity|]. intros H. cbn. apply (quiet_name _ _ "g_scan_begin" H). cbn; tauto.
 Qed.
 
+(** ** sizes and overflow: clause helpers *)
+Definition size_cl (c : cfgT) (g : G) (a : Aux) (tr : trace) : Prop :=
+  ovf_cond c g tr -> forall r,
+    List.length (r_ret (get_rec g r)) < cR c \/ exists t cl, In cl (v_cl (view a t)) /\ shrinking_claim_on r cl.
+Definition noovf_cl (c : cfgT) (g : G) (tr : trace) : Prop := ovf_cond c g tr -> forall p, cnt "overflow" p tr = 0%Z.
+Definition collsz_cl (c : cfgT) (g : G) (a : Aux) : Prop := forall t sv, v_scan (view a t) = Some sv -> collsz_ok c g sv.
+
+Lemma cnt_le_app name p tr es : (cnt name p tr <= cnt name p (tr ++ es))%Z.
+Proof. rewrite cnt_app. pose proof (cnt_nonneg name p es). lia. Qed.
+
+Lemma ovf_cond_weaken c g g' tr tr' :
+  ovf_cond c g' tr' -> List.length (g_list g) <= List.length (g_list g') ->
+  (forall p, (cnt "retire" p tr <= cnt "retire" p tr')%Z) -> ovf_cond c g tr.
+Proof. intros (H1 & H2 & H3) Hl Hc. repeat split; [lia|exact H2|]. intros p. specialize (H3 p). specialize (Hc p). lia. Qed.
+
+Lemma size_cl_transfer c g a tr g' a' tr' :
+  size_cl c g a tr -> List.length (g_list g) <= List.length (g_list g') ->
+  (forall p, (cnt "retire" p tr <= cnt "retire" p tr')%Z) ->
+  (forall r, List.length (r_ret (get_rec g' r)) <= List.length (r_ret (get_rec g r))) ->
+  (forall t cl, In cl (v_cl (view a t)) -> In cl (v_cl (view a' t))) ->
+  size_cl c g' a' tr'.
+Proof.
+  intros Hs Hl Hc Hret Hcl Hcond r. pose proof (ovf_cond_weaken _ _ _ _ _ Hcond Hl Hc) as Hold.
+  destruct (Hs Hold r) as [H|(t & cl & H1 & H2)]; [left; specialize (Hret r); lia|right]. exists t, cl. auto.
+Qed.
+
+Lemma noovf_cl_transfer c g tr g' tr' :
+  noovf_cl c g tr -> List.length (g_list g) <= List.length (g_list g') ->
+  (forall p, (cnt "retire" p tr <= cnt "retire" p tr')%Z) ->
+  (forall p, cnt "overflow" p tr' = cnt "overflow" p tr) -> noovf_cl c g' tr'.
+Proof. intros Hn Hl Hc Ho Hcond p. rewrite Ho. apply Hn. eapply ovf_cond_weaken; eauto. Qed.
+
+Lemma collsz_ok_mono c g g' sv :
+  collsz_ok c g sv -> List.length (g_list g) <= List.length (g_list g') -> collsz_ok c g' sv.
+Proof.
+  unfold collsz_ok. destruct (sc_todo sv); [|auto]. intros H Hl.
+  assert (cH c * List.length (g_list g) <= cH c * List.length (g_list g')) by (apply Nat.mul_le_mono_l; exact Hl). lia.
+Qed.
+
+Lemma cnt_overflow_quiet p t es : (forall e, In e es -> quiet e = true) -> cnt "overflow" p (Conc.tag t es) = 0%Z.
+Proof. intros H. apply cnt_tag_none. intros e He. apply quiet_not_ev; [cbn; tauto|auto]. Qed.
+
 (** ** 1. neutral events *)
 Lemma resp_last_other tr t t' es : t' <> t -> resp_last (tr ++ Conc.tag t' es) t <-> resp_last tr t.
 Proof. intros H. unfold resp_last. now rewrite last_ev_tag_other. Qed.
@@ -309,6 +351,10 @@ Proof.
   - apply (retd_cl_ext g a tr _ i_retd).
   - apply (retd_scan_cl_ext g a tr t es i_retd_scan). intros e He. apply quiet_nosb. auto.
   - apply (pre_cl_nodispose tr t es i_pre). intros e p He. apply quiet_not_dispose. auto.
+  - exact i_collsz.
+  - apply (size_cl_transfer c g a tr g a _ i_size); [apply le_n|intros p; apply cnt_le_app|intros; apply le_n|auto].
+  - apply (noovf_cl_transfer c g tr g _ i_noovf); [apply le_n|intros p; apply cnt_le_app|].
+    intros p. rewrite cnt_app, cnt_overflow_quiet by exact Hq. lia.
 Qed.
 
 (** the usual case: one access event *)
@@ -375,9 +421,10 @@ Lemma inv_soft c g a tr t v' :
        (forall v, In v (sc_coll sv) -> seen_in tr s (List.length tr) v)) ->
   (forall sv r s, v_scan v' = Some sv -> v_rec v' = Some r -> last_sb tr t = Some s ->
      forall p, In p (effc g a r) -> retired_before tr s p) ->
+  (forall sv, v_scan v' = Some sv -> collsz_ok c g sv) ->
   Inv c g (upd_view a t v') tr.
 Proof.
-  intros HI Hr Hh Hc Hk Hs Hv Hrs. destruct HI.
+  intros HI Hr Hh Hc Hk Hs Hv Hrs Hcz. destruct HI.
   assert (Ho : forall t' r, owns (view (upd_view a t v') t') r <-> owns (view a t') r).
   { intros t' r. vcase t' t; [|tauto]. unfold owns. rewrite Hr, Hh. tauto. }
   apply mkInv.
@@ -411,6 +458,10 @@ Proof.
   - exact i_retd.
   - intros t' sv r s H1 H2 H3 p Hp. change (In p (effc g a r)) in Hp. vcase t' t; eauto.
   - exact i_pre.
+  - intros t' sv H. vcase t' t; eauto.
+  - apply (size_cl_transfer c g _ tr g _ tr i_size); [apply le_n|intros; lia|intros; apply le_n|].
+    intros t' cl H. vcase t' t; [now rewrite Hc|exact H].
+  - exact i_noovf.
 Qed.
 
 (** ** 4. a state change in fields the invariant does not mention (free_, client sources) *)
@@ -454,6 +505,10 @@ Proof.
   - intros r p H. rewrite He in H. eauto.
   - intros t sv r s H1 H2 H3 p Hp. rewrite He in Hp. eauto.
   - exact i_pre.
+  - intros t sv H. eapply collsz_ok_mono; [eauto|]. rewrite Hl. lia.
+  - apply (size_cl_transfer c g a tr g' a tr i_size); [rewrite Hl; lia|intros; lia| |auto].
+    intros r. destruct (Hf r) as (_ & _ & ->). lia.
+  - apply (noovf_cl_transfer c g tr g' tr i_noovf); [rewrite Hl; lia|intros; lia|reflexivity].
 Qed.
 
 Lemma inv_st_free c g a tr r b : Inv c g a tr -> Inv c (upd_rec g r (set_free b)) a tr.
@@ -584,6 +639,11 @@ Proof.
     intros t' sv r' s H1 H2 H3 p Hp. rewrite Hvs in H1. rewrite Hvr in H2.
     apply (Hc t' sv r' s H1 H2 H3 p). unfold effc in *. cbn in *. now rewrite <- Hret.
   - apply pre_cl_nodispose; [exact i_pre|]. intros e p He. apply quiet_not_dispose. auto.
+  - intros t' sv H. rewrite Hvs in H. eapply collsz_ok_mono; [eauto|]. apply le_n.
+  - apply (size_cl_transfer c g a tr g' a' _ i_size); [apply le_n|intros p; apply cnt_le_app|intros r'; rewrite Hret; lia|].
+    intros t' cl H. now rewrite Hvc.
+  - apply (noovf_cl_transfer c g tr g' _ i_noovf); [apply le_n|intros p; apply cnt_le_app|].
+    intros p. rewrite cnt_app, cnt_overflow_quiet by exact Hq. lia.
 Qed.
 
 (** ** 6. owner_rec_ changes *)
@@ -671,6 +731,10 @@ Proof.
     { unfold a' in H2. vcase t' t; [congruence|exact H2]. }
     apply (i_retd_scan t' sv r' s H1 H2' H3 p). unfold effc in *. unfold a' in Hp. cbn [a_eff upd_view] in *. rewrite Hret in Hp. exact Hp.
   - exact i_pre.
+  - intros t' sv H. rewrite Hvs in H. eapply collsz_ok_mono; [eauto|]. apply le_n.
+  - apply (size_cl_transfer c g a tr g' a' tr i_size); [apply le_n|intros; lia|intros r'; rewrite Hret; lia|].
+    intros t' cl H. now rewrite Hvc.
+  - apply (noovf_cl_transfer c g tr g' tr i_noovf); [apply le_n|intros; lia|reflexivity].
 Qed.
 
 Lemma NoDup_remove_eq (l : list nat) x : NoDup l -> NoDup (remove Nat.eq_dec x l).
@@ -747,6 +811,10 @@ Proof.
   - intros t' sv r' s H1 H2 H3 p Hp. rewrite Hvs in H1. rewrite Hvr in H2.
     apply (i_retd_scan t' sv r' s H1 H2 H3 p). unfold effc in *. unfold a' in Hp. cbn [a_eff upd_view] in *. rewrite Hret in Hp. exact Hp.
   - exact i_pre.
+  - intros t' sv H. rewrite Hvs in H. eapply collsz_ok_mono; [eauto|]. apply le_n.
+  - apply (size_cl_transfer c g a tr g' a' tr i_size); [apply le_n|intros; lia|intros r'; rewrite Hret; lia|].
+    intros t' cl H. now rewrite Hvc.
+  - apply (noovf_cl_transfer c g tr g' tr i_noovf); [apply le_n|intros; lia|reflexivity].
 Qed.
 
 (** free_thread_data: owner_rec_.store( nullptr ) of the attached record, all of whose slots are null *)
@@ -806,6 +874,10 @@ Proof.
   - intros t' sv r' s H1 H2 H3 p Hp. rewrite Hvs in H1. apply Hvr in H2. destruct H2 as (H2 & _).
     apply (i_retd_scan t' sv r' s H1 H2 H3 p). unfold effc in *. unfold a' in Hp. cbn [a_eff upd_view] in *. rewrite Hret in Hp. exact Hp.
   - exact i_pre.
+  - intros t' sv H. rewrite Hvs in H. eapply collsz_ok_mono; [eauto|]. apply le_n.
+  - apply (size_cl_transfer c g a tr g' a' tr i_size); [apply le_n|intros; lia|intros r'; rewrite Hret; lia|].
+    intros t' cl H. now rewrite Hvc.
+  - apply (noovf_cl_transfer c g tr g' tr i_noovf); [apply le_n|intros; lia|reflexivity].
 Qed.
 
 (** help_scan gives a claimed record back: owner_rec_.store( nullptr ) *)
@@ -871,6 +943,10 @@ Proof.
   - intros t' sv r' s H1 H2 H3 p Hp. rewrite Hvs in H1. rewrite Hvr in H2.
     apply (i_retd_scan t' sv r' s H1 H2 H3 p). unfold effc in *. unfold a' in Hp. cbn [a_eff upd_view] in *. rewrite Hret in Hp. exact Hp.
   - exact i_pre.
+  - intros t' sv H. rewrite Hvs in H. eapply collsz_ok_mono; [eauto|]. apply le_n.
+  - apply (size_cl_transfer c g a tr g' a' tr i_size); [apply le_n|intros; lia|intros r'; rewrite Hret; lia|].
+    intros t' cl H. now rewrite Hvc.
+  - apply (noovf_cl_transfer c g tr g' tr i_noovf); [apply le_n|intros; lia|reflexivity].
 Qed.
 
 (** ** 7. create_thread_data + first store, and the push onto thread_list_ *)
@@ -974,6 +1050,10 @@ Proof.
   - intros t' sv r' s H1 H2 H3 p Hp. rewrite Hvs in H1. rewrite Hvr in H2.
     apply (i_retd_scan t' sv r' s H1 H2 H3 p). unfold effc in *. unfold a' in Hp. cbn [a_eff upd_view] in *. rewrite Hret in Hp. exact Hp.
   - exact i_pre.
+  - intros t' sv H. rewrite Hvs in H. eapply collsz_ok_mono; [eauto|]. apply le_n.
+  - apply (size_cl_transfer c g a tr g' a' tr i_size); [apply le_n|intros; lia|intros r'; rewrite Hret; lia|].
+    intros t' cl H. now rewrite Hvc.
+  - apply (noovf_cl_transfer c g tr g' tr i_noovf); [apply le_n|intros; lia|reflexivity].
 Qed.
 
 (** the CAS that publishes the new record at the head of thread_list_ *)
@@ -1039,6 +1119,10 @@ Proof.
     { unfold a' in H2. vcase t' t; [congruence|exact H2]. }
     apply (i_retd_scan t' sv r' s H1 H2' H3 p). exact Hp.
   - exact i_pre.
+  - intros t' sv H. rewrite Hvs in H. eapply collsz_ok_mono; [eauto|]. cbn. lia.
+  - apply (size_cl_transfer c g a tr g' a' tr i_size); [cbn; lia|intros; lia|intros; apply le_n|].
+    intros t' cl H. now rewrite Hvc.
+  - apply (noovf_cl_transfer c g tr g' tr i_noovf); [cbn; lia|intros; lia|reflexivity].
 Qed.
 
 (** ** 8. steps on retired arrays: the owner changes its claims, the effective contents, the cells *)
@@ -1100,6 +1184,9 @@ Proof. intros H. unfold set_claims, view; cbn. destruct (Nat.eqb_spec t' t); con
 Lemma frame_set_claims a t cl eff : Conc.frame view t a (set_claims a t cl eff).
 Proof. intros t' H. now apply view_set_claims_other. Qed.
 
+Lemma shrinking_crec r cl : shrinking_claim_on r cl -> crec cl = r.
+Proof. intros (act & eff & -> & _). reflexivity. Qed.
+
 Lemma owns_dec (v : lview) (r : nat) : {owns v r} + {~ owns v r}.
 Proof.
   unfold owns. destruct (v_rec v) as [r'|].
@@ -1126,9 +1213,12 @@ Lemma inv_claims c g a tr t g' eff' cl' es :
   (forall sv r s, v_scan (view a t) = Some sv -> v_rec (view a t) = Some r -> last_sb (tr ++ Conc.tag t es) t = Some s ->
      forall p, In p (effc g' a' r) -> retired_before (tr ++ Conc.tag t es) s p) ->
   pre_cl (tr ++ Conc.tag t es) ->
+  (ovf_cond c g' (tr ++ Conc.tag t es) -> forall r, owns (view a t) r ->
+     List.length (r_ret (get_rec g' r)) < cR c \/ exists cl, In cl cl' /\ shrinking_claim_on r cl) ->
+  (ovf_cond c g' (tr ++ Conc.tag t es) -> forall p, cnt "overflow" p (Conc.tag t es) = 0%Z) ->
   Inv c g' a' (tr ++ Conc.tag t es).
 Proof.
-  intros HI Hlist Hlen Hos Hother a' Hcl Hnd Heff Hm Hbal Hsafe Hidle Hretd_t Hrs_t Hpre.
+  intros HI Hlist Hlen Hos Hother a' Hcl Hnd Heff Hm Hbal Hsafe Hidle Hretd_t Hrs_t Hpre Hsz_t Hnoovf.
   assert (Hs : forall r j, gslot g' r j = gslot g r j).
   { intros r j. unfold gslot. destruct (Hos r) as (_ & ->). reflexivity. }
   assert (Ho : forall r, r_owner (get_rec g' r) = r_owner (get_rec g r)) by (intros r; apply Hos).
@@ -1208,6 +1298,20 @@ Proof.
     rewrite E in Hp. rewrite last_sb_mild in H3 by exact Hm.
     apply retired_before_ext. eapply i_retd_scan; eauto.
   - exact Hpre.
+  - intros t' sv H. rewrite Hvs in H. eapply collsz_ok_mono; [eauto|]. rewrite Hlist. apply le_n.
+  - intros Hcond r.
+    assert (Hold : ovf_cond c g tr).
+    { eapply ovf_cond_weaken; [exact Hcond|rewrite Hlist; apply le_n|intros p; apply cnt_le_app]. }
+    destruct (owns_dec (view a t) r) as [Hown|Hno].
+    + destruct (Hsz_t Hcond r Hown) as [H|(cl & H1 & H2)]; [now left|right]. exists t, cl. split; [|exact H2].
+      unfold a'. rewrite view_set_claims_same. exact H1.
+    + destruct (Hother _ Hno) as (E1 & _). rewrite E1.
+      destruct (i_size Hold r) as [H|(t' & cl & H1 & H2)]; [now left|right]. exists t', cl. split; [|exact H2].
+      destruct (Nat.eq_dec t' t) as [->|Hne].
+      * exfalso. apply Hno. rewrite <- (shrinking_crec _ _ H2). apply (i_claim t cl H1).
+      * unfold a'. rewrite view_set_claims_other by exact Hne. exact H1.
+  - intros Hcond p. rewrite cnt_app, (Hnoovf Hcond p), Z.add_0_r. apply i_noovf.
+    eapply ovf_cond_weaken; [exact Hcond|rewrite Hlist; apply le_n|intros q; apply cnt_le_app].
 Qed.
 
 Definition set_eff (eff : nat -> option (list Z)) (r : nat) (o : option (list Z)) : nat -> option (list Z) :=
@@ -1241,9 +1345,12 @@ Lemma inv_claim1 c g a tr t r g' co cn rest neweff es :
      In p (effc g a r) \/
      (v_scan (view a t) = None /\ retired_before (tr ++ Conc.tag t es) (List.length (tr ++ Conc.tag t es)) p)) ->
   pre_cl (tr ++ Conc.tag t es) ->
+  (ovf_cond c g' (tr ++ Conc.tag t es) ->
+     List.length (r_ret (get_rec g' r)) < cR c \/ exists cl, In cl cn /\ shrinking_claim_on r cl) ->
+  (ovf_cond c g' (tr ++ Conc.tag t es) -> forall p, cnt "overflow" p (Conc.tag t es) = 0%Z) ->
   Inv c g' a' (tr ++ Conc.tag t es).
 Proof.
-  intros HI Hown Hlist Hlen Hos Hret Hcl Hco Hrest Hcn Hcn1 a' Hok Hne Hm Hbal Hsafe Hidle Hsub Hpre.
+  intros HI Hown Hlist Hlen Hos Hret Hcl Hco Hrest Hcn Hcn1 a' Hok Hne Hm Hbal Hsafe Hidle Hsub Hpre Hsz Hnoovf.
   assert (Hsame : forall r0, r0 <> r -> effc g' a' r0 = effc g a r0).
   { intros r0 Hn0. unfold effc, a'; cbn. rewrite set_eff_other by exact Hn0. now rewrite Hret. }
   apply (inv_claims c g a tr t g' (set_eff (a_eff a) r neweff) (cn ++ rest) es); auto.
@@ -1277,6 +1384,18 @@ Proof.
     destruct (Nat.eq_dec r0 r) as [->|Hn0].
     + destruct (Hsub p Hp) as [H|(H & _)]; [|congruence]. eapply (i_retd_scan _ _ _ _ HI); eauto.
     + fold a' in Hp. rewrite Hsame in Hp by exact Hn0. eapply (i_retd_scan _ _ _ _ HI); eauto.
+  - intros Hcond r0 Ho0. destruct (Nat.eq_dec r0 r) as [->|Hn0].
+    + destruct (Hsz Hcond) as [H|(cl & H1 & H2)]; [now left|right]. exists cl. split; [apply in_or_app; now left|exact H2].
+    + rewrite Hret by exact Hn0.
+      assert (Hold : ovf_cond c g tr).
+      { eapply ovf_cond_weaken; [exact Hcond|rewrite Hlist; apply le_n|intros p; apply cnt_le_app]. }
+      destruct (i_size _ _ _ _ HI Hold r0) as [H|(t' & cl & H1 & H2)]; [now left|right].
+      pose proof (shrinking_crec _ _ H2) as Ec.
+      assert (t' = t).
+      { eapply (i_excl _ _ _ _ HI); [|exact Ho0]. rewrite <- Ec. apply (i_claim _ _ _ _ HI t' cl H1). }
+      subst t'. rewrite Hcl in H1. apply in_app_or in H1. destruct H1 as [H1|H1].
+      * exfalso. apply Hn0. rewrite <- Ec. now apply Hco.
+      * exists cl. split; [apply in_or_app; now right|exact H2].
 Qed.
 
 Lemma eff_none c g a tr t r :
@@ -1354,6 +1473,23 @@ Proof. intros [<-|[]]. reflexivity. Qed.
 Lemma not_resp_last_cli tr t n args : is_resp (EvCli n args) = false -> ~ resp_last (tr ++ Conc.tag t [EvCli n args]) t.
 Proof. intros H Hr. apply (resp_last_same tr t [] (EvCli n args)) in Hr. congruence. Qed.
 
+(** under [ovf_cond], an array on which its owner holds no shrinking claim is below the capacity *)
+Lemma size_noclaim c g a tr t r tr' :
+  Inv c g a tr -> ovf_cond c g tr' -> (forall p, (cnt "retire" p tr <= cnt "retire" p tr')%Z) ->
+  owns (view a t) r -> (forall cl, In cl (v_cl (view a t)) -> ~ shrinking_claim_on r cl) ->
+  List.length (r_ret (get_rec g r)) < cR c.
+Proof.
+  intros HI Hcond Hc Hown Hno.
+  assert (Hold : ovf_cond c g tr) by (eapply ovf_cond_weaken; [exact Hcond|apply le_n|exact Hc]).
+  destruct (i_size _ _ _ _ HI Hold r) as [H|(t' & cl & H1 & H2)]; [exact H|exfalso].
+  assert (t' = t).
+  { eapply (i_excl _ _ _ _ HI); [|exact Hown]. rewrite <- (shrinking_crec _ _ H2). apply (i_claim _ _ _ _ HI t' cl H1). }
+  subst t'. eapply Hno; eauto.
+Qed.
+
+Lemma not_shrinking_other r cl : crec cl <> r -> ~ shrinking_claim_on r cl.
+Proof. intros H Hs. apply H. now apply shrinking_crec. Qed.
+
 (** C1: the client announces retire(p): the effective content of its array grows *)
 Lemma inv_emit_retire c g a tr t r p :
   Inv c g a tr -> v_rec (view a t) = Some r -> v_scan (view a t) = None -> (forall cl, In cl (v_cl (view a t)) -> crec cl <> r) ->
@@ -1383,6 +1519,9 @@ Proof.
     + right. split; [exact Hns|]. exists (List.length tr), t. split; [rewrite app_length; cbn; lia|].
       rewrite nth_error_app2 by lia. now rewrite Nat.sub_diag.
   - apply pre_cl_nodispose; [exact (i_pre _ _ _ _ HI)|]. intros e q [<-|[]]. discriminate.
+  - intros Hcond. left.
+    apply (size_noclaim c g a tr t r _ HI Hcond); [intros q; apply cnt_le_app|exact Hown|].
+    intros cl Hc. apply not_shrinking_other. now apply Hno.
 Qed.
 
 (** C2a: current_.load() of an owned array on which the thread holds no claim *)
@@ -1410,6 +1549,7 @@ Proof.
   - intros Hr. exfalso. revert Hr. apply not_resp_after_acc. discriminate.
   - intros q Hq. rewrite effc_set_claims_same in Hq. left. unfold effc. now rewrite Hnone.
   - apply pre_cl_nodispose; [exact (i_pre _ _ _ _ HI)|]. intros e q [<-|[]]. discriminate.
+  - intros _. right. exists (ClAct r l l). split; [now left|]. exists l, l. split; [reflexivity|apply le_n].
 Qed.
 
 (** C2b: the load inside retired_array::push after the retire was announced *)
@@ -1440,15 +1580,20 @@ Proof.
   - intros Hr. exfalso. revert Hr. apply not_resp_after_acc. discriminate.
   - intros q Hq. rewrite effc_set_claims_same in Hq. left. unfold effc. now rewrite Hok.
   - apply pre_cl_nodispose; [exact (i_pre _ _ _ _ HI)|]. intros e q [<-|[]]. discriminate.
+  - intros Hcond. left.
+    apply (size_noclaim c g a tr t r _ HI Hcond); [intros q; apply cnt_le_app|exact Hown|].
+    intros cl Hc. rewrite Hcl in Hc. destruct Hc as [<-|Hc]; [intros (act & eff & E & _); discriminate|].
+    apply not_shrinking_other. intros E. apply Hnin. rewrite <- E. now apply in_map.
 Qed.
 
 (** C3/C4: the store (or exchange) of current_ that makes the effective content actual *)
 Lemma inv_st_cur c g a tr t r act e rest k :
   Inv c g a tr -> v_cl (view a t) = ClAct r act e :: rest -> k <> KBegin ->
+  (ovf_cond c (upd_rec g r (set_ret e)) (tr ++ Conc.tag t [EvAcc k (obj_cur r) true]) -> List.length e < cR c) ->
   Inv c (upd_rec g r (set_ret e)) (set_claims a t rest (set_eff (a_eff a) r None))
       (tr ++ Conc.tag t [EvAcc k (obj_cur r) true]).
 Proof.
-  intros HI Hcl Hk.
+  intros HI Hcl Hk Hsz.
   assert (Hin : In (ClAct r act e) (v_cl (view a t))) by (rewrite Hcl; now left).
   destruct (i_claim _ _ _ _ HI t _ Hin) as (Hown & Hok). cbn in Hown, Hok. destruct Hok as (Hact & Heff).
   assert (Hlt := owns_lt _ _ _ _ _ _ HI Hown).
@@ -1479,14 +1624,57 @@ Proof.
   - intros Hr. exfalso. revert Hr. apply not_resp_after_acc. exact Hk.
   - intros q Hq. rewrite effc_set_claims_same, H5 in Hq. left. unfold effc. now rewrite Heff.
   - apply pre_cl_nodispose; [exact (i_pre _ _ _ _ HI)|]. intros e0 q [<-|[]]. discriminate.
+  - intros Hcond. left. rewrite H5. now apply Hsz.
+  - intros _ q. apply cnt_tag_acc.
+Qed.
+
+(** the store of current_ by a push that fills the array: the claim is kept (the scan that follows owns the cells) *)
+Lemma inv_st_cur_keep c g a tr t r act e rest k :
+  Inv c g a tr -> v_cl (view a t) = ClAct r act e :: rest -> k <> KBegin ->
+  Inv c (upd_rec g r (set_ret e)) (set_claims a t (ClAct r e e :: rest) (set_eff (a_eff a) r (Some e)))
+      (tr ++ Conc.tag t [EvAcc k (obj_cur r) true]).
+Proof.
+  intros HI Hcl Hk.
+  assert (Hin : In (ClAct r act e) (v_cl (view a t))) by (rewrite Hcl; now left).
+  destruct (i_claim _ _ _ _ HI t _ Hin) as (Hown & Hok). cbn in Hown, Hok. destruct Hok as (Hact & Heff).
+  assert (Hlt := owns_lt _ _ _ _ _ _ HI Hown).
+  pose proof (i_claim_nd _ _ _ _ HI t) as Hnd. rewrite Hcl in Hnd. cbn in Hnd. inversion Hnd as [|x y Hnin Hnd']; subst.
+  destruct (set_ret_facts g r e Hlt) as (H1 & H2 & H3 & H4 & H5).
+  apply (inv_claim1 c g a tr t r _ [ClAct r (r_ret (get_rec g r)) e] [ClAct r e e] rest).
+  - exact HI.
+  - exact Hown.
+  - exact H1.
+  - exact H2.
+  - exact H3.
+  - exact H4.
+  - exact Hcl.
+  - intros cl [<-|[]]. reflexivity.
+  - intros cl Hc E. apply Hnin. rewrite <- E. now apply in_map.
+  - intros cl [<-|[]]. reflexivity.
+  - cbn. lia.
+  - intros cl [<-|[]]. cbn. rewrite H5, set_eff_same. auto.
+  - intros _. discriminate.
+  - apply acc_mild.
+  - apply (bal_step g a tr _ _ t _ r).
+    + exact (i_bal _ _ _ _ HI).
+    + exact H2.
+    + exact Hlt.
+    + intros r' Hne. apply effc_set_claims_other; auto.
+    + intros q. rewrite effc_set_claims_same. unfold effc. rewrite Heff. cbn. lia.
+  - apply safe_cl_quiet; [exact (i_safe _ _ _ _ HI)|]. apply acc_quiet.
+  - intros Hr. exfalso. revert Hr. apply not_resp_after_acc. exact Hk.
+  - intros q Hq. rewrite effc_set_claims_same in Hq. left. unfold effc. now rewrite Heff.
+  - apply pre_cl_nodispose; [exact (i_pre _ _ _ _ HI)|]. intros e0 q [<-|[]]. discriminate.
+  - intros _. right. exists (ClAct r e e). split; [now left|]. exists e, e. split; [reflexivity|apply le_n].
+  - intros _ q. apply cnt_tag_acc.
 Qed.
 
 (** C5: push past the capacity: the announced entry is dropped *)
 Lemma inv_emit_overflow c g a tr t r l p rest :
-  Inv c g a tr -> v_cl (view a t) = ClAct r l (l ++ [p]) :: rest ->
+  Inv c g a tr -> v_cl (view a t) = ClAct r l (l ++ [p]) :: rest -> cR c <= List.length l ->
   Inv c g (set_claims a t rest (set_eff (a_eff a) r None)) (tr ++ Conc.tag t [EvCli "overflow" [p]]).
 Proof.
-  intros HI Hcl.
+  intros HI Hcl Hfull.
   assert (Hin : In (ClAct r l (l ++ [p])) (v_cl (view a t))) by (rewrite Hcl; now left).
   destruct (i_claim _ _ _ _ HI t _ Hin) as (Hown & Hok). cbn in Hown, Hok. destruct Hok as (Hact & Heff).
   assert (Hlt := owns_lt _ _ _ _ _ _ HI Hown).
@@ -1518,6 +1706,20 @@ Proof.
   - intros Hr. exfalso. revert Hr. apply not_resp_last_cli. reflexivity.
   - intros q Hq. rewrite effc_set_claims_same in Hq. left. unfold effc. rewrite Heff. apply in_or_app. now left.
   - apply pre_cl_nodispose; [exact (i_pre _ _ _ _ HI)|]. intros e q [<-|[]]. discriminate.
+  - intros Hcond. exfalso.
+    assert (Hlt : List.length (r_ret (get_rec g r)) < cR c).
+    { apply (size_noclaim c g a tr t r _ HI Hcond); [intros q; apply cnt_le_app|exact Hown|].
+      intros cl Hc. rewrite Hcl in Hc. destruct Hc as [<-|Hc].
+      - intros (act & eff & E & Hle). inversion E; subst. rewrite app_length in Hle. cbn in Hle. lia.
+      - apply not_shrinking_other. intros E. apply Hnin. rewrite <- E. now apply in_map. }
+    lia.
+  - intros Hcond. exfalso.
+    assert (Hlt : List.length (r_ret (get_rec g r)) < cR c).
+    { apply (size_noclaim c g a tr t r _ HI Hcond); [intros q; apply cnt_le_app|exact Hown|].
+      intros cl Hc. rewrite Hcl in Hc. destruct Hc as [<-|Hc].
+      - intros (act & eff & E & Hle). inversion E; subst. rewrite app_length in Hle. cbn in Hle. lia.
+      - apply not_shrinking_other. intros E. apply Hnin. rewrite <- E. now apply in_map. }
+    lia.
 Qed.
 
 (** ** 9. scan markers *)
@@ -1622,6 +1824,7 @@ Proof.
     split; [intros r' j v []|intros v []].
   - intros sv r' s H1 H2 H3 p Hp. rewrite last_sb_sb_evs in H3. inversion H3; subst s.
     apply retired_before_ext. eapply retired_before_mono; [|apply (i_retd _ _ _ _ HI r' p Hp)]. lia.
+  - intros sv H. cbn in H. inversion H; subst sv. reflexivity.
 Qed.
 
 (** the return of scan(): the cells kept were all seen in some hazard slot during the scan *)
@@ -1680,6 +1883,7 @@ Proof.
   - intros r' H. cbn in H. apply (i_seen _ _ _ _ HI t r' H).
   - intros sv' H. discriminate.
   - intros sv' r' s H. discriminate.
+  - intros sv' H. discriminate.
 Qed.
 
 (** ** 10. disposer calls of stage 2 *)
@@ -1695,13 +1899,13 @@ Proof. apply cnt_tag_none. intros e H. apply in_map_iff in H. destruct H as (x &
 
 Lemma inv_emit_dispose c g a tr t r l freed kept rest :
   Inv c g a tr -> v_cl (view a t) = ClAct r l l :: rest ->
-  (forall p, countZ p l = (countZ p freed + countZ p kept)%Z) ->
+  (forall p, countZ p l = (countZ p freed + countZ p kept)%Z) -> List.length kept <= List.length l ->
   safe_cl c (tr ++ Conc.tag t (map ev_dispose freed)) ->
   pre_cl (tr ++ Conc.tag t (map ev_dispose freed)) ->
   Inv c g (set_claims a t (ClAct r l kept :: rest) (set_eff (a_eff a) r (Some kept)))
       (tr ++ Conc.tag t (map ev_dispose freed)).
 Proof.
-  intros HI Hcl Hsplit Hsafe Hpre.
+  intros HI Hcl Hsplit Hlen Hsafe Hpre.
   assert (Hin : In (ClAct r l l) (v_cl (view a t))) by (rewrite Hcl; now left).
   destruct (i_claim _ _ _ _ HI t _ Hin) as (Hown & Hok). cbn in Hown, Hok. destruct Hok as (Hact & Heff).
   assert (Hlt := owns_lt _ _ _ _ _ _ HI Hown).
@@ -1736,6 +1940,8 @@ Proof.
   - intros q Hq. rewrite effc_set_claims_same in Hq. left. unfold effc. rewrite Heff.
     apply countZ_pos_In. apply countZ_pos_In in Hq. rewrite (Hsplit q). pose proof (countZ_nonneg q freed). lia.
   - exact Hpre.
+  - intros _. right. exists (ClAct r l kept). split; [now left|]. exists l, kept. split; [reflexivity|exact Hlen].
+  - intros _ q. apply cnt_overflow_dispose_list.
 Qed.
 
 Lemma retire_once_dispose_ext tr t l : retire_once (tr ++ Conc.tag t (map ev_dispose l)) -> retire_once tr.
@@ -1868,10 +2074,11 @@ Definition with_seen (v : lview) (l : list nat) : lview := mkV (v_rec v) (v_held
 Lemma inv_set_seen c g a tr t :
   Inv c g a tr -> Inv c g (upd_view a t (with_seen (view a t) (g_list g))) tr.
 Proof.
-  intros HI. apply inv_soft; try reflexivity; [exact HI| | |].
+  intros HI. apply inv_soft; try reflexivity; [exact HI| | | |].
   - intros r H. exact H.
   - intros sv H. cbn in H. apply (i_cov _ _ _ _ HI t sv H).
   - intros sv r s H1 H2 H3 p Hp. cbn in H1, H2. eapply (i_retd_scan _ _ _ _ HI); eauto.
+  - intros sv H. cbn in H. eapply (i_collsz _ _ _ _ HI); eauto.
 Qed.
 
 Definition scan_view (v : lview) (sv : scanv) (seen : list nat) : lview :=
@@ -1886,13 +2093,15 @@ Lemma inv_scan_step c g a tr t sv sv' seen :
      (forall v, In v (sc_coll sv) -> seen_in tr s (List.length tr) v) ->
      (forall r j v, covered (cH c) sv' r j -> v <> 0%Z -> held tr s r j v -> In v (sc_coll sv')) /\
      (forall v, In v (sc_coll sv') -> seen_in tr s (List.length tr) v)) ->
+  (collsz_ok c g sv -> collsz_ok c g sv') ->
   Inv c g (upd_view a t (scan_view (view a t) sv' seen)) tr.
 Proof.
-  intros HI Hsv Hseen Hstep. apply inv_soft; try reflexivity; [exact HI|exact Hseen| |].
+  intros HI Hsv Hseen Hstep Hcz. apply inv_soft; try reflexivity; [exact HI|exact Hseen| | |].
   - intros sv0 H. cbn in H. inversion H; subst sv0.
     destruct (i_cov _ _ _ _ HI t sv Hsv) as (s & Hs & Hcv & Hsn). exists s. split; [exact Hs|].
     apply Hstep; assumption.
   - intros sv0 r s H1 H2 H3 p Hp. cbn in H2. eapply (i_retd_scan _ _ _ _ HI); eauto.
+  - intros sv0 H. cbn in H. inversion H; subst sv0. apply Hcz. eapply (i_collsz _ _ _ _ HI); eauto.
 Qed.
 
 Lemma held_slot c g a tr s r j v t : Inv c g a tr -> last_sb tr t = Some s -> held tr s r j v -> gslot g r j = v.
